@@ -442,6 +442,7 @@ impl Lowerer<'_, '_> {
                 .collect::<Option<Vec<_>>>()
             else {
                 // If one of the items is uninhabited then we don't have to do anything here
+                self.new_block(variant_lbl);
                 self.emit(Instruction::Return(Some(
                     IrValue::Bool(true).into(),
                 )));
